@@ -771,6 +771,16 @@ func (be BlockExpr) Coq(needs_paren bool) string {
 	return addParens(needs_paren, pp.Build())
 }
 
+// ParenExpr is an expression that is always printed in parentheses, which
+// delimits the scope of any bindings inside it.
+type ParenExpr struct {
+	X Expr
+}
+
+func (e ParenExpr) Coq(needs_paren bool) string {
+	return e.X.Coq(true)
+}
+
 type DerefExpr struct {
 	X  Expr
 	Ty Expr
